@@ -11,7 +11,7 @@
 //! (fields of different type carry different names: TLC cannot compare a boolean with a sequence)
 //! date   {"k":"date","y":..,"m":..,"d":..}
 //! time   {"k":"time","h","mi","s","ns","zk":"utc|local|offset|zone","off":seconds,"zn":"name"}
-//! dt     {"k":"dt","d":date,"t":time}
+//! dt     {"k":"dt","date":date,"time":time}
 //! dtd    {"k":"dtd","neg":bool,"sec":[digits of |seconds|],"ns":nanos}
 //! ymd    {"k":"ymd","neg":bool,"mo":[digits of |months|]}
 //! range  {"k":"range","lo":v,"lc":bool,"hi":v,"hc":bool}
@@ -85,7 +85,7 @@ pub fn enc_value(v: &Value) -> J {
     Value::Context(ctx) => json!({"k": "ctx", "ents": ctx.iter().map(|(n, v)| json!({"n": n.to_string(), "nc": cps(&n.to_string()), "v": enc_value(v)})).collect::<Vec<_>>()}),
     Value::Date(d) => enc_date(d),
     Value::Time(t) => enc_time(t),
-    Value::DateTime(dt) => json!({"k": "dt", "d": enc_date(&dt.date()), "t": enc_time(&dt.time())}),
+    Value::DateTime(dt) => json!({"k": "dt", "date": enc_date(&dt.date()), "time": enc_time(&dt.time())}),
     Value::DaysAndTimeDuration(d) => {
       let n = d.verif_nanos();
       let a = n.unsigned_abs();
@@ -165,8 +165,8 @@ pub fn dec_value(j: &J) -> Value {
     "date" => Value::Date(FeelDate::new(j["y"].as_i64().unwrap_or(1) as i32, u8_of(&j["m"]), u8_of(&j["d"]))),
     "time" => Value::Time(dec_time(j)),
     "dt" => Value::DateTime(FeelDateTime::new(
-      FeelDate::new(j["d"]["y"].as_i64().unwrap_or(1) as i32, u8_of(&j["d"]["m"]), u8_of(&j["d"]["d"])),
-      dec_time(&j["t"]),
+      FeelDate::new(j["date"]["y"].as_i64().unwrap_or(1) as i32, u8_of(&j["date"]["m"]), u8_of(&j["date"]["d"])),
+      dec_time(&j["time"]),
     )),
     "dtd" => {
       let total = (u128_of_digits(&j["sec"]) * 1_000_000_000 + j["ns"].as_u64().unwrap_or(0) as u128) as i128;
